@@ -1518,7 +1518,10 @@ impl OneSideHashJoiner {
     ) -> Result<()> {
         // Merge the incoming batch with the existing input buffer:
         self.input_buffer = concat_batches(&batch.schema(), [&self.input_buffer, batch])?;
-        // Resize the hashes buffer to the number of rows in the incoming batch:
+        // Resize the hashes buffer to the number of rows in the incoming batch. It must
+        // be zeroed as well: `create_hashes` leaves the slots of NULL keys untouched, so
+        // a stale hash of an earlier batch would otherwise be stored for a NULL key.
+        self.hashes_buffer.clear();
         self.hashes_buffer.resize(batch.num_rows(), 0);
         // Get allocation_info before adding the item
         // Update the hashmap with the join key values and hashes of the incoming batch:
